@@ -19,7 +19,7 @@ func chanClosedNoBlock(ch <-chan struct{}) bool {
 	}
 }
 
-func c07Profile(variant string, faults bool) func(c *sim.RunCtx) {
+func c07Profile(variant string, faults bool, early bool) func(c *sim.RunCtx) {
 	return func(c *sim.RunCtx) {
 		t := c.T.Plan
 		pp := drawPersistPlan(t, variant, faults, true)
@@ -44,7 +44,7 @@ func c07Profile(variant string, faults bool) func(c *sim.RunCtx) {
 		var acks []ack
 		var lt *lifetime
 		var quiescent *crashPoint // media at the first quiescence, before the rotation probe
-		lt = runLifetime(c, pp, m, &lifetimeOpts{proc: 1, model: model, snapshots: false, drain: true, faults: faults, noEarly: !faults, deadlockCls: "stalled",
+		lt = runLifetime(c, pp, m, &lifetimeOpts{proc: 1, model: model, snapshots: false, drain: true, faults: faults, noEarly: !faults && !early, deadlockCls: "stalled",
 			script: func(l *lifetime) {
 				w := l.w
 				e := w.e
@@ -71,6 +71,7 @@ func c07Profile(variant string, faults bool) func(c *sim.RunCtx) {
 				l.runClients(pp.clients, 1)
 				if shutdown && !c.Failed() {
 					e.shutdownSeq = w.s.Steps
+					e.shutdownT = w.s.Now()
 					c.Count("fault_graceful_shutdown", 1)
 					e.group.cancel()
 				}
@@ -144,6 +145,35 @@ func c07Profile(variant string, faults bool) func(c *sim.RunCtx) {
 		}
 		c.Count("probe_sync_retried", retried)
 
+		// (2') timer-based form of the minimum interval, valid under any
+		// schedule: every timer the syncer routine arms before a sync round is
+		// due no earlier than one minimum epoch interval after the previous
+		// one fired (the round can only start after its timer). Judged in the
+		// profiles without injected failures (no error-retry timers).
+		if !faults {
+			var prev *sim.TimerRec
+			for _, tr := range e.clock.Timers {
+				if tr.G != e.routineG {
+					continue
+				}
+				if e.shutdownT > 0 && tr.Created >= e.shutdownT {
+					break
+				}
+				if prev != nil && prev.Fired {
+					c.Count("probe_timer_interval_checked", 1)
+					if tr.Deadline < prev.FireT+cfg.MinEpoch {
+						c.Fail("syncs-too-close", "the syncer armed a timer due at %v although its previous timer fired at %v: the next data synchronisation may start only %v after the previous one, minimum epoch interval is %v", tr.Deadline, prev.FireT, tr.Deadline-prev.FireT, cfg.MinEpoch)
+						return
+					}
+				}
+				prev = tr
+			}
+		}
+		if early {
+			// the remaining timed checks need time to stand still while
+			// anything is runnable
+			faults = true
+		}
 		// (2) two sync rounds are never closer than the minimum epoch interval
 		// while the store is running (fault-free profile: time only moves when
 		// nothing is runnable, so the round starts when its timer fired)
@@ -268,10 +298,11 @@ func init() {
 		Prop:  "C07",
 		Level: "exploration",
 		Profiles: []sim.Profile{
-			{Name: "timed-flat", Weight: 3, Fn: c07Profile("flat", false)},
-			{Name: "timed-ac", Weight: 1, Fn: c07Profile("ac", false)},
-			{Name: "faults-flat", Weight: 3, Fn: c07Profile("flat", true)},
-			{Name: "faults-hier", Weight: 1, Fn: c07Profile("hier", true)},
+			{Name: "timed-flat", Weight: 3, Fn: c07Profile("flat", false, false)},
+			{Name: "timed-ac", Weight: 1, Fn: c07Profile("ac", false, false)},
+			{Name: "early-timers-flat", Weight: 3, Fn: c07Profile("flat", false, true)},
+			{Name: "faults-flat", Weight: 3, Fn: c07Profile("flat", true, false)},
+			{Name: "faults-hier", Weight: 1, Fn: c07Profile("hier", true, false)},
 		},
 		Components: map[string][]string{
 			"real": {"pkg/blobstore/local: periodic syncer (both routines), persistent block list (wake-up channels, epochs, deferred releases), directory-backed state store, allocator, the store above them"},
